@@ -79,9 +79,11 @@ def enc_seq(E, m, legacy):
     bs = getattr(m, "burst_seq", None)
     if bs is not None:
         g = lambda i: bs.get(i)
-    else:
+    elif hasattr(m, "burst_arr"):
         arr = m.burst_arr
         g = lambda i: z3.Select(arr, i)
+    else:
+        g = lambda i: z3.IntVal(0)          # no burst
     length, octet = enc(m, legacy, g)
     length = z3.simplify(length)
     return SSeq("bytearray", length, octet)
